@@ -155,6 +155,9 @@ pub struct Config {
     pub slow_deliver_us: u64,
     #[serde(default)]
     pub slow_clone_us: u64,
+    /// free runs: a Task effect / task takes this long, so that many of them are in flight at once
+    #[serde(default)]
+    pub slow_effect_us: u64,
 }
 fn store_name() -> String {
     "store".into()
@@ -274,6 +277,9 @@ pub fn make_task(env: &Arc<Env>) -> Box<dyn FnOnce() + Send> {
     Box::new(move || {
         let who = sched().current_role();
         envc.cb("effect", &who, json!([]), 0, json!([]));
+        if envc.cfg.slow_effect_us > 0 && sched().is_free() {
+            std::thread::sleep(std::time::Duration::from_micros(envc.cfg.slow_effect_us));
+        }
     })
 }
 
